@@ -88,7 +88,7 @@ def report(prop, tier, seed, results, wall, write=True) -> int:
     kf = [k for k in known["findings"] if k["property"] == prop]
     tot = dict(paths=0, confirmed=0, refuted=0, ignored=0, unknown=0, nontrivial=0, solver_queries=0)
     solver_time = 0.0
-    functions, assumptions = set(), set()
+    functions, assumptions, notes = set(), set(), set()
     discharged = inconclusive = violated = errors = 0
     known_hits = {}
     new_viol = []
@@ -103,6 +103,8 @@ def report(prop, tier, seed, results, wall, write=True) -> int:
         solver_time += r.get("solver_time", 0) or 0
         functions.update(r.get("functions", []))
         assumptions.update(r.get("assumptions", []))
+        if r.get("method_note"):
+            notes.add(r["method_note"])
         st = r["status"]
         if st == "error":
             errors += 1
@@ -232,6 +234,7 @@ def report(prop, tier, seed, results, wall, write=True) -> int:
             "programs": len({(j["program"]) for j in per_job}),
             "functions_encoded": sorted(functions),
             "samples": samples or [{"note": "no confirmed non-trivial path sampled"}],
+            "method_notes": sorted(notes),
             "known_findings": kf_out,
             "evaluator_cross_check": js or "not applicable",
             "nonreproducing_counterexamples": len(nonrepro),
